@@ -13,6 +13,7 @@ RULE = ("seeded random trees built from the public classes: agents nested up to 
         "the dictionary composites of the trees are user subclasses with callbacks and a state of their own (in the model: a pseudo-child visited last) and a data hook (counted on the harness side: once per observation / action). "
         "every leaf reading is a new value and a second observation is taken at the end: the first one must still hold what it held (harness-side clause). "
         "every mapping handed to a constructor is emptied (and, for agents, given a stranger) right afterwards: the composite must have its own. "
+        "in 30% of the trees one leaf of the action is None (in the model: the reserved value 4999): every wrapper on its path is applied to it all the same. "
         "all eight root events are issued. Non-trivial = depth >= 3 somewhere and at least one dictionary and one wrapper; distinct = canonical JSON.")
 TRUSTED = [
     "Coq 8.16.1 kernel incl. vm_compute",
@@ -97,11 +98,28 @@ def action_for(s, g):
     raise ValueError(t)
 
 
+NONE_VALUE = 4999      # stands for Python's None in the model's values (harness/impl/c12.py)
+
+
+def _leaves(a, out):
+    if a[0] == "dict":
+        for _, v in a[1]:
+            _leaves(v, out)
+    else:
+        out.append(a)
+    return out
+
+
 def gen_one(rng):
     g = G(rng)
     ag = g.agent(1)
     en = g.env(1)
-    return {"agent": ag, "env": en, "action": action_for(en, g), "fixed_root": rng.random() < 0.4,
+    act = action_for(en, g)
+    lv = _leaves(act, [])
+    if rng.random() < 0.3 and lv:
+        # one leaf of the action is None: a value like any other, every wrapper on its path is applied to it
+        rng.choice(lv)[1] = NONE_VALUE
+    return {"agent": ag, "env": en, "action": act, "fixed_root": rng.random() < 0.4,
             "eq_all": rng.random() < 0.3,     # components of one class compare equal and hash alike (value-like objects); still distinct components
             "meta": {"depth": g.depth, "dict": g.has_dict, "wrap": g.has_wrap, "n": g.n}}
 
